@@ -1138,6 +1138,18 @@ impl<G: AffineRepr> Env<G> {
 pub const LABEL: &[u8] = b"bpverif";
 pub const LABEL_ALT: &[u8] = b"bpverif-alt";
 
+/// Variant name of an error value (messages may be reworded; the variant is the observable).
+pub fn err_name(e: &ark_bulletproofs::r1cs::R1CSError) -> String {
+    use ark_bulletproofs::r1cs::R1CSError::*;
+    match e {
+        InvalidGeneratorsLength => "InvalidGeneratorsLength".into(),
+        FormatError => "FormatError".into(),
+        VerificationError => "VerificationError".into(),
+        MissingAssignment => "MissingAssignment".into(),
+        GadgetError { description } => format!("GadgetError({})", description),
+    }
+}
+
 pub struct Proved<G: AffineRepr> {
     /// Ok(proof bytes) or Err(error text)
     pub proof: Result<Vec<u8>, String>,
@@ -1168,7 +1180,7 @@ pub fn prove<G: AffineRepr>(
             ctx,
             transcript: Some(tr),
         },
-        Err(e) => Proved { proof: Err(format!("{:?}", e)), commitments, ctx, transcript: None },
+        Err(e) => Proved { proof: Err(err_name(&e)), commitments, ctx, transcript: None },
     }
 }
 
@@ -1208,6 +1220,6 @@ pub fn verify<G: AffineRepr>(
     finish_ctx(&mut ctx);
     match r {
         Ok(tr) => Verified { result: Ok(()), ctx, transcript: Some(tr) },
-        Err(e) => Verified { result: Err(format!("{:?}", e)), ctx, transcript: None },
+        Err(e) => Verified { result: Err(err_name(&e)), ctx, transcript: None },
     }
 }
